@@ -85,3 +85,22 @@ Example C03_example : wf ex7 /\
   | inr _ => False
   end.
 Proof. split; [reflexivity|]. vm_compute. reflexivity. Qed.
+
+(* projecting after creation equals projecting during creation when no selected genotype is missing or multiallelic *)
+From Sfs Require Import Create CreateP CreateSpecP StatDefP CreateRelP.
+Theorem C03_create_then_project : forall cfg cfgp to items st stp y,
+  cfg_wf cfg -> cfg_wf cfgp -> r_pto cfg = None -> r_pto cfgp = Some (dec to) ->
+  r_map cfgp = r_map cfg -> r_cols cfgp = r_cols cfg -> r_shape cfgp = to -> positive_shape to ->
+  Forall (no_selected_ploidy cfg) items ->
+  Forall (fun it => rec_complete (r_map cfg) (r_cols cfg) (item_gts it) = true) items ->
+  run_items cfg false (init_rstate cfg) items = inl st ->
+  run_items cfgp false (init_rstate cfgp) items = inl stp ->
+  project {| adata := scs st; ashape := r_shape cfg |} to = inl y ->
+  y = {| adata := scs stp; ashape := to |}.
+Proof. exact create_then_project. Qed.
+Print Assumptions C03_create_then_project.
+
+Theorem C03_project_of_histogram : forall sh to keys y, positive_shape sh -> keys_ok sh keys -> project (hist sh keys) to = inl y ->
+  forall k', inb to k' = true -> q_getd y k' = qsum (map (fun key => project_value (dec sh) key (dec to) k') keys).
+Proof. exact project_hist. Qed.
+Print Assumptions C03_project_of_histogram.
